@@ -323,11 +323,22 @@ func noteHeld(s *Sched, l any, d int) {
 	s.progress()
 }
 
+// SequentialWorld is set by engines whose world runs on one goroutine whenever
+// no scheduler is installed (handlers are called one after the other, spawned
+// goroutines run eagerly at the spawn point): a lock found taken there can
+// never be released, which is reported (as a panic of the caller) instead of
+// blocking until the per-run watchdog fires.
+var SequentialWorld bool
+
 // Lock replaces x.Lock().
 func Lock(l Locker, site string) {
 	s := curSched()
 	if s == nil {
-		l.Lock()
+		if SequentialWorld && !l.TryLock() {
+			panic("self-deadlock: the lock taken at " + site + " is already held and no other task exists to release it")
+		} else if !SequentialWorld {
+			l.Lock()
+		}
 		return
 	}
 	Yield("before-lock " + site)
@@ -361,7 +372,11 @@ func Unlock(l Locker, site string) {
 func RLock(l RWLocker, site string) {
 	s := curSched()
 	if s == nil {
-		l.RLock()
+		if SequentialWorld && !l.TryRLock() {
+			panic("self-deadlock: the lock read-taken at " + site + " is already held and no other task exists to release it")
+		} else if !SequentialWorld {
+			l.RLock()
+		}
 		return
 	}
 	Yield("before-rlock " + site)
